@@ -104,10 +104,10 @@ func (g *ygen) scalar(forKey bool) *YN {
 		n.S = rapid.SampledFrom([]string{"1.5", "-0.25", "3.0", "100.125", "0.1", "2.5e+10", "1.0e-05"}).Draw(t, "float")
 	case k == 3 && !forKey:
 		n.T = "bool"
-		n.S = rapid.SampledFrom([]string{"true", "false"}).Draw(t, "bool")
+		n.S = rapid.SampledFrom([]string{"true", "false", "true", "false", "True", "TRUE", "False", "FALSE"}).Draw(t, "bool")
 	case k == 4 && !forKey:
 		n.T = "null"
-		n.S = rapid.SampledFrom([]string{"null", "~"}).Draw(t, "null")
+		n.S = rapid.SampledFrom([]string{"null", "~", "null", "~", "Null", "NULL"}).Draw(t, "null")
 	default:
 		n.T = "str"
 		switch rapid.IntRange(0, 5).Draw(t, "strk") {
@@ -164,6 +164,20 @@ func (g *ygen) scalar(forKey bool) *YN {
 }
 
 func (g *ygen) maybeAnchor(n *YN) {
+	// a collection may carry the anchor name one of its descendants defines again: an alias after it means the
+	// descendant (the latest definition before the alias), so the collection itself is never an alias target
+	if g.o.Anchors && (n.K == YMap || n.K == YSeq) && rapid.IntRange(0, 11).Draw(g.t, "anchreuse") == 0 {
+		var inner *YN
+		n.Walk(func(x *YN) {
+			if x != n && x.Anchor != "" && inner == nil {
+				inner = x
+			}
+		})
+		if inner != nil {
+			n.Anchor = inner.Anchor
+			return
+		}
+	}
 	if g.o.Anchors && n.K != YAlias && rapid.IntRange(0, 5).Draw(g.t, "anch") == 0 && !(n.K == YScalar && (n.Style == Literal || n.Style == Folded)) {
 		g.nAnchor++
 		n.Anchor = fmt.Sprintf("a%d", g.nAnchor)
@@ -512,7 +526,7 @@ func (n *YN) Data() *model.Value {
 	case "null":
 		return model.NewNull()
 	case "bool":
-		return model.NewBool(n.S == "true")
+		return model.NewBool(strings.EqualFold(n.S, "true"))
 	case "int":
 		for pre, base := range map[string]int{"0x": 16, "0o": 8} {
 			if strings.HasPrefix(n.S, pre) {
